@@ -8,7 +8,7 @@ enum Kind : uint16_t {
 #undef OP
     KIND__COUNT
 };
-enum Family { BC, BA, BR, BD, MC, MA, MT, MM, MS, MD, SC, SM, SS, SD, SX, VV, FAM__COUNT };
+enum Family { BC, BA, BR, BD, MC, MA, MT, MM, MS, MD, SC, SM, SS, SD, SX, VV, BV, FAM__COUNT };
 struct OpMeta { const char *name; Family fam; const char *roles; };
 extern const OpMeta META[KIND__COUNT];
 }
